@@ -70,7 +70,7 @@ CHECKS = {
              "statuses, that plain and lines name exactly the JSON's offenders per category, that the JSON counters "
              "match its own lists, that --quiet is silent and that lint-file reports exactly the per-file problems of "
              "the covered files among its arguments (symbolic links to covered files are named too: a link names nothing). In addition Workflow.tla "
-             "behaviours with `lint-file F` between the modifying commands are replayed: its exit status must be the verdict on the named files (LintFileVsLint).",
+             "behaviours with `lint-file F` between the modifying commands are replayed: its exit status must be the verdict on the named files (LintFileVsLint). LintFileArgs.tla (what lint-file makes of one argument: 14 kinds x 3 spellings, M |= R) is replayed cell by cell.",
         note="Text formats are parsed structurally (section / paragraph / bullet; path: message [id]) with opaque labels; "
              "the reference for all views is the same state's lint --json, whose own correctness is C01's subject.",
         ref="5/C13"),
